@@ -1,8 +1,3 @@
-/-
-The whole-program soundness theorem (Martian/TypingProgram.lean): induction over
-the calls of a pipeline body in dependency order and over the nesting depth of
-pipelines.  Core Lean only.
--/
 import Martian.TypingProgram
 import Proofs.TypingRun
 
@@ -51,12 +46,33 @@ theorem calleeEq_sound (a b : Callee) (h : calleeEq a b = true) : a = b := by
 
 /-! ### arguments -/
 
-/-- what a runner must do for one callable: conforming inputs ⇒ it returns, and
-the outputs conform to the declared output struct -/
+/-- what a runner must do for one callable: conforming inputs ⇒ it does not fail:
+it returns outputs that conform to the declared output struct, or it stops at a
+`disabled` modifier that resolved to null -/
 def RcOk (rc : Runner) (c : Callee) : Prop :=
   ∀ ins : List (Bytes × J),
     (∀ x t, c.params.lookup x = some t → ∃ v, ins.lookup x = some v ∧ valid t v = true) →
-    ∃ out, rc c ins = some out ∧ valid (.struct c.name c.outs) out = true
+    rc c ins = .nullDisabled ∨ ∃ out, rc c ins = .ok out ∧ valid (.struct c.name c.outs) out = true
+
+theorem collect_map {α β : Type} (f : α → Res β) (R : α → β → Prop) :
+    ∀ (xs : List α), (∀ x ∈ xs, f x = .nullDisabled ∨ ∃ w, f x = .ok w ∧ R x w) →
+      Res.collect (xs.map f) = .nullDisabled ∨
+        ∃ ws, Res.collect (xs.map f) = .ok ws ∧ ∀ w ∈ ws, ∃ x ∈ xs, R x w
+  | [], _ => Or.inr ⟨[], rfl, by simp⟩
+  | x :: xs, h => by
+    have ih := collect_map f R xs (fun y hy => h y (List.mem_cons_of_mem _ hy))
+    rcases h x List.mem_cons_self with hx | ⟨w, hw, hr⟩
+    · rcases ih with hn | ⟨ws, hws, _⟩
+      · exact Or.inl (by simp [Res.collect, hx, hn])
+      · exact Or.inl (by simp [Res.collect, hx, hws])
+    · rcases ih with hn | ⟨ws, hws, hall⟩
+      · exact Or.inl (by simp [Res.collect, hw, hn])
+      · refine Or.inr ⟨w :: ws, by simp [Res.collect, hw, hws], ?_⟩
+        intro w' hw'
+        rcases List.mem_cons.mp hw' with rfl | hw'
+        · exact ⟨x, List.mem_cons_self, hr⟩
+        · obtain ⟨y, hy, hr'⟩ := hall w' hw'
+          exact ⟨y, List.mem_cons_of_mem _ hy, hr'⟩
 
 /-- the checked argument lists exist, aligned with the parameters, all values valid -/
 theorem argLists_sound (Γ : Env) (ρ : Store) (hρ : StoreOk Γ ρ) (bs : List (Bytes × Bind)) :
@@ -118,20 +134,24 @@ theorem forkInputs_ok (params : List (Bytes × Ty)) (args : List (Bytes × Bool 
 theorem callOut_sound (rc : Runner) (c : Callee) (keys : List Bytes) (args : List (Bytes × Bool × List J))
     (sh : Option SplitShape) (hrc : RcOk rc c)
     (hin : ∀ i x t, c.params.lookup x = some t → ∃ v, (forkInputs args i).lookup x = some v ∧ valid t v = true)
-    (hdir : ∀ ks, sh = some (.map ks) → isDirMap (Ty.struct c.name c.outs) = false) :
-    ∃ out, callOut rc c keys args sh = some out ∧
+    (hdir : ∀ ks, sh = some (.map ks) → isDirMap (Ty.struct c.name c.outs) = true →
+      ∀ i, i < nforks args → legalName (keys.getD i []) = true) :
+    callOut rc c keys args sh = .nullDisabled ∨
+    ∃ out, callOut rc c keys args sh = .ok out ∧
       valid (CallSig.whole { name := c.name, mode := modeOf sh, src := sh, outs := c.outs }) out = true := by
   cases sh with
   | none =>
-    obtain ⟨out, ho, hv⟩ := hrc (forkInputs args 0) (hin 0)
-    exact ⟨out, by simp [callOut, ho], by simpa [CallSig.whole, modeOf, CallSig.struct] using hv⟩
+    rcases hrc (forkInputs args 0) (hin 0) with hn | ⟨out, ho, hv⟩
+    · exact Or.inl (by simp [callOut, hn])
+    · exact Or.inr ⟨out, by simp [callOut, ho], by simpa [CallSig.whole, modeOf, CallSig.struct] using hv⟩
   | some s =>
     cases s with
     | arr n =>
-      obtain ⟨ws, hws, hall⟩ := allSome_map (fun i => rc c (forkInputs args i))
+      rcases collect_map (fun i => rc c (forkInputs args i))
         (fun _ w => valid (.struct c.name c.outs) w = true) (List.range (nforks args))
-        (fun i _ => hrc (forkInputs args i) (hin i))
-      refine ⟨.arr ws, by simp only [callOut, hws, Option.map_some], ?_⟩
+        (fun i _ => hrc (forkInputs args i) (hin i)) with hn | ⟨ws, hws, hall⟩
+      · exact Or.inl (by simp only [callOut]; rw [hn]; rfl)
+      refine Or.inr ⟨.arr ws, by simp only [callOut]; rw [hws]; rfl, ?_⟩
       simp only [CallSig.whole, modeOf, CallSig.struct]
       apply valid_of_shape
       refine Shape.arr _ _ ?_
@@ -139,22 +159,143 @@ theorem callOut_sound (rc : Runner) (c : Callee) (keys : List Bytes) (args : Lis
       obtain ⟨_, _, h'⟩ := hall w hw
       exact shape_of_valid _ _ h'
     | map ks =>
-      obtain ⟨ws, hws, hall⟩ := allSome_map
+      rcases collect_map
         (fun i => (rc c (forkInputs args i)).map fun o => (keys.getD i [], o))
-        (fun _ (w : Bytes × J) => valid (.struct c.name c.outs) w.2 = true) (List.range (nforks args))
+        (fun i (w : Bytes × J) => w.1 = keys.getD i [] ∧ valid (.struct c.name c.outs) w.2 = true)
+        (List.range (nforks args))
         (fun i _ => by
-          obtain ⟨out, ho, hv⟩ := hrc (forkInputs args i) (hin i)
-          exact ⟨(keys.getD i [], out), by simp [ho], hv⟩)
-      refine ⟨.obj ws, by simp only [callOut, hws, Option.map_some], ?_⟩
+          rcases hrc (forkInputs args i) (hin i) with hn | ⟨out, ho, hv⟩
+          · exact Or.inl (by simp [hn, Res.map])
+          · exact Or.inr ⟨(keys.getD i [], out), by simp [ho, Res.map], rfl, hv⟩) with hn | ⟨ws, hws, hall⟩
+      · exact Or.inl (by simp only [callOut]; rw [hn]; rfl)
+      refine Or.inr ⟨.obj ws, by simp only [callOut]; rw [hws]; rfl, ?_⟩
       simp only [CallSig.whole, modeOf, CallSig.struct]
       apply valid_of_shape
       refine Shape.tmap _ _ ?_ ?_
       · intro w hw
-        obtain ⟨_, _, h'⟩ := hall w hw
+        obtain ⟨_, _, _, h'⟩ := hall w hw
         exact shape_of_valid _ _ h'
-      · intro hd
-        rw [hdir ks rfl] at hd
-        cases hd
+      · intro hd w hw
+        obtain ⟨i, hi, hk, _⟩ := hall w hw
+        rw [hk]
+        exact hdir ks rfl hd i (List.mem_range.mp hi)
+
+/-! ### statically known legal keys -/
+
+theorem allSome_length {α : Type} : ∀ (l : List (Option α)) (r : List α), allSome l = some r → r.length = l.length
+  | [], r, h => by simp [allSome] at h; subst h; rfl
+  | none :: _, r, h => by simp [allSome] at h
+  | some x :: l, r, h => by
+    simp only [allSome] at h
+    cases hl : allSome l with
+    | none => simp [hl] at h
+    | some xs =>
+      simp only [hl, Option.some.injEq] at h
+      subst h
+      simp [allSome_length l xs hl]
+
+/-- with statically known keys every split argument list has `n` elements -/
+theorem argLists_split_len (Γ : Env) (ρ : Store) (bs : List (Bytes × Bind)) (n : Nat) :
+    ∀ (params : List (Bytes × Ty)) (args : List (Bytes × Bool × List J)),
+      staticLegalKeys n params bs = true → argLists Γ ρ bs params = some args →
+      ∀ a ∈ args, a.2.1 = true → a.2.2.length = n
+  | [], args, _, h => by simp [argLists] at h; subst h; simp
+  | (x, t) :: r, args, hk, h => by
+    simp only [staticLegalKeys, List.all_cons, Bool.and_eq_true] at hk
+    simp only [argLists] at h
+    cases hb : bs.lookup x with
+    | none => simp [hb] at h
+    | some b =>
+      simp only [hb] at h hk
+      cases hd : deliveredT Γ ρ t b with
+      | none => simp [hd] at h
+      | some vs =>
+        simp only [hd] at h
+        by_cases hc : (vs.all fun v => valid t v) = true
+        · simp only [hc, if_true] at h
+          cases hr : argLists Γ ρ bs r with
+          | none => simp [hr] at h
+          | some as =>
+            simp only [hr, Option.some.injEq] at h
+            subst h
+            intro a ha hsp
+            rcases List.mem_cons.mp ha with rfl | ha
+            · -- the head: a split binding is a map literal with n entries
+              cases b with
+              | plain e => simp [Bind.isSplit] at hsp
+              | split e =>
+                cases e with
+                | map isS kvs =>
+                  simp only [Bool.and_eq_true, decide_eq_true_eq] at hk
+                  simp only [deliveredT] at hd
+                  have := allSome_length _ _ hd
+                  simp only [List.length_map] at this
+                  simpa [this] using hk.1.1
+                | _ => simp at hk
+            · exact argLists_split_len Γ ρ bs n r as (by simpa [staticLegalKeys] using hk.2) hr a ha hsp
+        · simp [hc] at h
+
+theorem nforks_le (n : Nat) : ∀ (args : List (Bytes × Bool × List J)) (m : Nat), m ≤ n →
+    (∀ a ∈ args, a.2.1 = true → a.2.2.length = n) →
+    args.foldl (fun m a => if a.2.1 then max m a.2.2.length else m) m ≤ n
+  | [], m, hm, _ => by simpa using hm
+  | a :: r, m, hm, h => by
+    simp only [List.foldl_cons]
+    apply nforks_le n r
+    · cases hs : a.2.1 with
+      | true =>
+        have := h a List.mem_cons_self hs
+        simp only [if_true]
+        exact Nat.max_le.mpr ⟨hm, by omega⟩
+      | false => simpa using hm
+    · exact fun a' ha' => h a' (List.mem_cons_of_mem _ ha')
+
+theorem nforks_pos_split : ∀ (args : List (Bytes × Bool × List J)) (m : Nat),
+    m < args.foldl (fun m a => if a.2.1 then max m a.2.2.length else m) m → ∃ a ∈ args, a.2.1 = true
+  | [], m, h => by simp at h
+  | a :: r, m, h => by
+    simp only [List.foldl_cons] at h
+    cases hs : a.2.1 with
+    | true => exact ⟨a, List.mem_cons_self, hs⟩
+    | false =>
+      simp only [hs, Bool.false_eq_true, if_false] at h
+      obtain ⟨a', ha', hs'⟩ := nforks_pos_split r m h
+      exact ⟨a', List.mem_cons_of_mem _ ha', hs'⟩
+
+/-- the fork keys are the keys of the first split literal: `n` legal names –
+provided some parameter is split at all -/
+theorem splitKeys_static (Γ : Env) (ρ : Store) (bs : List (Bytes × Bind)) (n : Nat) :
+    ∀ (params : List (Bytes × Ty)), staticLegalKeys n params bs = true →
+      (∃ p ∈ params, ∃ b, bs.lookup p.1 = some b ∧ b.isSplit = true) →
+      (splitKeys Γ ρ params bs).length = n ∧ ∀ k ∈ splitKeys Γ ρ params bs, legalName k = true
+  | [], _, h => by obtain ⟨p, hp, _⟩ := h; cases hp
+  | (x, t) :: r, hk, h => by
+    simp only [staticLegalKeys, List.all_cons, Bool.and_eq_true] at hk
+    cases hb : bs.lookup x with
+    | none =>
+      simp only [splitKeys, hb]
+      obtain ⟨p, hp, b, hbl, hsp⟩ := h
+      rcases List.mem_cons.mp hp with rfl | hp
+      · simp [hb] at hbl
+      · exact splitKeys_static Γ ρ bs n r (by simpa [staticLegalKeys] using hk.2) ⟨p, hp, b, hbl, hsp⟩
+    | some b =>
+      simp only [hb] at hk
+      cases b with
+      | plain e =>
+        simp only [splitKeys, hb]
+        obtain ⟨p, hp, b', hbl, hsp⟩ := h
+        rcases List.mem_cons.mp hp with rfl | hp
+        · simp only [hb, Option.some.injEq] at hbl
+          subst hbl
+          simp [Bind.isSplit] at hsp
+        · exact splitKeys_static Γ ρ bs n r (by simpa [staticLegalKeys] using hk.2) ⟨p, hp, b', hbl, hsp⟩
+      | split e =>
+        cases e with
+        | map isS kvs =>
+          simp only [Bool.and_eq_true, decide_eq_true_eq, List.all_eq_true] at hk
+          simp only [splitKeys, hb, List.length_map]
+          exact ⟨hk.1.1, fun k hkm => hk.1.2 k hkm⟩
+        | _ => simp at hk
 
 /-- stores agree with environments on which calls have been made -/
 def SameCalls (Γ : Env) (ρ : Store) : Prop := ∀ id, Γ.calls.lookup id = none → ρ.calls.lookup id = none
@@ -198,52 +339,141 @@ theorem sameCalls_extend (Γ : Env) (ρ : Store) (id : Bytes) (sig : CallSig) (v
     · have : (id' == id) = false := by simpa using hq
       simp [List.lookup, this]
 
+theorem holeFree_base (Γ : Env) (b : Base) (e : Exp) : holeFree Γ (.base b) e = true := by
+  simp only [holeFree, refHoleFree]
+  cases refType Γ e <;> simp [noHole]
+
+/-- an accepted `disabled` modifier does not FAIL to evaluate: it resolves to a
+boolean, or to null (where the run time stops by design) -/
+theorem disabledRT_sound (Γ : Env) (ρ : Store) (hρ : StoreOk Γ ρ) (callee : Callee)
+    (binds : List (Bytes × Bind)) (w : Option Wild) (m : Mods)
+    (hm : modsOk Γ callee binds w m = true)
+    (hw : ∀ e, usingDisabled m.usings = some e → e.wf = true) :
+    disabledRT Γ ρ m = .nullDisabled ∨ ∃ b, disabledRT Γ ρ m = .ok b := by
+  have hnil : modErrs Γ callee binds w m = [] := by simpa [modsOk] using hm
+  have hd := ((modErrs_nil_iff Γ callee binds w m).mp hnil).2.1
+  cases hu : usingDisabled m.usings with
+  | none => exact Or.inr ⟨false, by simp [disabledRT, hu]⟩
+  | some e =>
+    obtain ⟨v, hev, hval⟩ := plain_sound_rt Γ ρ hρ (.base .bool) rfl e (hw e hu) (hd e hu)
+      (holeFree_base Γ .bool _)
+    have hs := shape_of_valid _ _ hval
+    cases hs with
+    | null => exact Or.inl (by simp [disabledRT, hu, hev])
+    | bool b => exact Or.inr ⟨b, by simp [disabledRT, hu, hev]⟩
+
+/-- without a `disabled` modifier the call is enabled -/
+theorem disabledRT_none (Γ : Env) (ρ : Store) (m : Mods) (h : usingDisabled m.usings = none) :
+    disabledRT Γ ρ m = .ok false := by simp [disabledRT, h]
+
+theorem argLists_mem (Γ : Env) (ρ : Store) (bs : List (Bytes × Bind)) :
+    ∀ (params : List (Bytes × Ty)) (args : List (Bytes × Bool × List J)),
+      argLists Γ ρ bs params = some args →
+      ∀ a ∈ args, ∃ t b, (a.1, t) ∈ params ∧ bs.lookup a.1 = some b ∧ a.2.1 = b.isSplit
+  | [], args, h => by simp [argLists] at h; subst h; simp
+  | (x, t) :: r, args, h => by
+    simp only [argLists] at h
+    cases hb : bs.lookup x with
+    | none => simp [hb] at h
+    | some b =>
+      simp only [hb] at h
+      cases hd : deliveredT Γ ρ t b with
+      | none => simp [hd] at h
+      | some vs =>
+        simp only [hd] at h
+        by_cases hc : (vs.all fun v => valid t v) = true
+        · simp only [hc, if_true] at h
+          cases hr : argLists Γ ρ bs r with
+          | none => simp [hr] at h
+          | some as =>
+            simp only [hr, Option.some.injEq] at h
+            subst h
+            intro a ha
+            rcases List.mem_cons.mp ha with rfl | ha
+            · exact ⟨t, b, List.mem_cons_self, hb, rfl⟩
+            · obtain ⟨t', b', hm, hl, hs⟩ := argLists_mem Γ ρ bs r as hr a ha
+              exact ⟨t', b', List.mem_cons_of_mem _ hm, hl, hs⟩
+        · simp [hc] at h
+
+/-- the keys of the forks of a map call with statically known keys are legal names -/
+theorem fork_keys_legal (Γ : Env) (ρ : Store) (bs : List (Bytes × Bind)) (n : Nat)
+    (params : List (Bytes × Ty)) (args : List (Bytes × Bool × List J))
+    (hk : staticLegalKeys n params bs = true) (ha : argLists Γ ρ bs params = some args) :
+    ∀ i, i < nforks args → legalName ((splitKeys Γ ρ params bs).getD i []) = true := by
+  intro i hi
+  have hlen := argLists_split_len Γ ρ bs n params args hk ha
+  have hle : nforks args ≤ n := nforks_le n args 0 (Nat.zero_le _) hlen
+  obtain ⟨a, ham, hsp⟩ := nforks_pos_split args 0 (by unfold nforks at hi; omega)
+  obtain ⟨t, b, hm, hl, hs⟩ := argLists_mem Γ ρ bs params args ha a ham
+  obtain ⟨hn, hleg⟩ := splitKeys_static Γ ρ bs n params hk ⟨(a.1, t), hm, b, hl, by rw [← hs]; exact hsp⟩
+  have hin : i < (splitKeys Γ ρ params bs).length := by omega
+  have hg : (splitKeys Γ ρ params bs).getD i [] = (splitKeys Γ ρ params bs)[i] := by
+    simp [List.getD_eq_getElem?_getD, hin]
+  rw [hg]
+  exact hleg _ (List.getElem_mem hin)
+
 theorem stepCall_sound (P : Prog) (rc : Runner) (Γ : Env) (ρ : Store) (c : CallStm) (sh : Option SplitShape)
     (hρ : StoreOk Γ ρ) (hsame : SameCalls Γ ρ) (hnew : Γ.calls.lookup c.id = none)
     (hchk : checkStm Γ c = some sh) (hok : okStm P Γ c sh = true) (hrc : RcOk rc c.callee) :
+    stepCall rc Γ ρ c = .nullDisabled ∨
     ∃ out, stepCall rc Γ ρ c =
-        some ({ Γ with calls := Γ.calls ++ [(c.id, c.sig sh)] }, { ρ with calls := ρ.calls ++ [(c.id, out)] }) ∧
+        .ok ({ Γ with calls := Γ.calls ++ [(c.id, c.sig sh)] }, { ρ with calls := ρ.calls ++ [(c.id, out)] }) ∧
       StoreOk { Γ with calls := Γ.calls ++ [(c.id, c.sig sh)] } { ρ with calls := ρ.calls ++ [(c.id, out)] } ∧
       SameCalls { Γ with calls := Γ.calls ++ [(c.id, c.sig sh)] } { ρ with calls := ρ.calls ++ [(c.id, out)] } := by
   simp only [okStm, Bool.and_eq_true, List.all_eq_true, decide_eq_true_eq] at hok
-  obtain ⟨⟨⟨⟨⟨hpw, how⟩, hnd⟩, hbs⟩, hdir⟩, _⟩ := hok
+  obtain ⟨⟨⟨⟨⟨⟨hpw, how⟩, hnd⟩, hbs⟩, hdw⟩, hdir⟩, _⟩ := hok
   -- the accepted call
+  have hmods : modsOk Γ c.callee c.binds c.wild c.mods = true := by
+    by_cases hm : modsOk Γ c.callee c.binds c.wild c.mods = true
+    · exact hm
+    · simp [checkStm, hm] at hchk
   have hcw : checkCallW Γ c.callee.params c.binds c.wild = some sh := by
-    simp only [checkStm] at hchk
-    split at hchk
-    · exact hchk
-    · cases hchk
+    simpa [checkStm, hmods] using hchk
   cases hab : allBinds Γ c.callee.params c.binds c.wild with
   | none => simp [checkCallW, hab] at hcw
   | some bs =>
-    simp only [hab, List.all_eq_true] at hbs
-    have hcc : checkCall Γ c.callee.params bs = some sh := by simpa [checkCallW, hab] using hcw
-    have hvc : validCall Γ c.callee.params bs = true := by simp [validCall, hcc]
-    obtain ⟨args, hargs, hkeys, hall⟩ := argLists_sound Γ ρ hρ bs c.callee.params (by
-      intro x t hm
-      have hl := lookup_of_mem_nodup hnd hm
-      obtain ⟨b, hbl, hvb⟩ := checkCall_bound Γ c.callee.params bs hvc x t hl
-      have := hbs (x, b) (lookup_mem hbl)
-      simp only [hl, Bool.and_eq_true] at this
-      exact ⟨hpw (x, t) hm, b, hbl, this.1, hvb, this.2⟩)
-    obtain ⟨out, hout, hval⟩ := callOut_sound rc c.callee (splitKeys Γ ρ c.callee.params bs) args sh hrc
-      (fun i => forkInputs_ok c.callee.params args i hnd hkeys hall)
-      (by
-        intro ks hs
-        subst hs
-        simpa using hdir)
-    refine ⟨out, by simp [stepCall, hchk, hab, hargs, hout], ?_, sameCalls_extend Γ ρ c.id _ out hsame⟩
-    exact storeOk_extend' Γ ρ c.id (c.sig sh) out hρ hnew (hsame c.id hnew) (by simpa [CallStm.sig] using hval)
+    rcases disabledRT_sound Γ ρ hρ c.callee c.binds c.wild c.mods hmods (by
+      intro e he
+      simpa [he] using hdw) with hdn | ⟨dis, hdis⟩
+    · exact Or.inl (by simp [stepCall, hchk, hab, hdn])
+    cases dis with
+    | true =>
+      -- a disabled call: null outputs
+      refine Or.inr ⟨.null, by simp [stepCall, hchk, hab, hdis], ?_, sameCalls_extend Γ ρ c.id _ .null hsame⟩
+      exact storeOk_extend' Γ ρ c.id (c.sig sh) .null hρ hnew (hsame c.id hnew) (valid_null _)
+    | false =>
+      simp only [hab, List.all_eq_true] at hbs
+      have hcc : checkCall Γ c.callee.params bs = some sh := by simpa [checkCallW, hab] using hcw
+      have hvc : validCall Γ c.callee.params bs = true := by simp [validCall, hcc]
+      obtain ⟨args, hargs, hkeys, hall⟩ := argLists_sound Γ ρ hρ bs c.callee.params (by
+        intro x t hm
+        have hl := lookup_of_mem_nodup hnd hm
+        obtain ⟨b, hbl, hvb⟩ := checkCall_bound Γ c.callee.params bs hvc x t hl
+        have := hbs (x, b) (lookup_mem hbl)
+        simp only [hl, Bool.and_eq_true] at this
+        exact ⟨hpw (x, t) hm, b, hbl, this.1, hvb, this.2⟩)
+      rcases callOut_sound rc c.callee (splitKeys Γ ρ c.callee.params bs) args sh hrc
+        (fun i => forkInputs_ok c.callee.params args i hnd hkeys hall)
+        (by
+          intro ks hs hd
+          subst hs
+          simp only [hab, hd, Bool.not_true, Bool.false_or] at hdir
+          cases ks with
+          | none => simp at hdir
+          | some k => exact fork_keys_legal Γ ρ bs k.length c.callee.params args hdir hargs) with hcn | ⟨out, hout, hval⟩
+      · exact Or.inl (by simp [stepCall, hchk, hab, hdis, hargs, hcn])
+      refine Or.inr ⟨out, by simp [stepCall, hchk, hab, hdis, hargs, hout], ?_, sameCalls_extend Γ ρ c.id _ out hsame⟩
+      exact storeOk_extend' Γ ρ c.id (c.sig sh) out hρ hnew (hsame c.id hnew) (by simpa [CallStm.sig] using hval)
 
 /-! ### the calls of a pipeline body, in dependency order -/
 
 theorem runCalls_sound (P : Prog) (rc : Runner) : ∀ (calls : List CallStm) (Γ : Env) (ρ : Store) (Γf : Env),
     StoreOk Γ ρ → SameCalls Γ ρ → okCalls P Γ calls = some Γf → (∀ c ∈ calls, RcOk rc c.callee) →
-    ∃ ρf, runCalls rc Γ ρ calls = some (Γf, ρf) ∧ StoreOk Γf ρf
+    runCalls rc Γ ρ calls = .nullDisabled ∨ ∃ ρf, runCalls rc Γ ρ calls = .ok (Γf, ρf) ∧ StoreOk Γf ρf
   | [], Γ, ρ, Γf, hρ, _, hok, _ => by
     simp only [okCalls, Option.some.injEq] at hok
     subst hok
-    exact ⟨ρ, rfl, hρ⟩
+    exact Or.inr ⟨ρ, rfl, hρ⟩
   | c :: r, Γ, ρ, Γf, hρ, hsame, hok, hrc => by
     simp only [okCalls] at hok
     cases hl : Γ.calls.lookup c.id with
@@ -256,11 +486,13 @@ theorem runCalls_sound (P : Prog) (rc : Runner) : ∀ (calls : List CallStm) (Γ
         simp only [hchk] at hok
         by_cases hokc : okStm P Γ c sh = true
         · simp only [hokc, if_true] at hok
-          obtain ⟨out, hstep, hρ', hsame'⟩ := stepCall_sound P rc Γ ρ c sh hρ hsame hl hchk hokc
-            (hrc c List.mem_cons_self)
-          obtain ⟨ρf, hrun, hρf⟩ := runCalls_sound P rc r _ _ Γf hρ' hsame' hok
-            (fun c' hc' => hrc c' (List.mem_cons_of_mem _ hc'))
-          exact ⟨ρf, by simp [runCalls, hstep, hrun], hρf⟩
+          rcases stepCall_sound P rc Γ ρ c sh hρ hsame hl hchk hokc
+            (hrc c List.mem_cons_self) with hsn | ⟨out, hstep, hρ', hsame'⟩
+          · exact Or.inl (by simp [runCalls, hsn])
+          rcases runCalls_sound P rc r _ _ Γf hρ' hsame' hok
+            (fun c' hc' => hrc c' (List.mem_cons_of_mem _ hc')) with hrn | ⟨ρf, hrun, hρf⟩
+          · exact Or.inl (by simp [runCalls, hstep, hrn])
+          · exact Or.inr ⟨ρf, by simp [runCalls, hstep, hrun], hρf⟩
         · simp [hokc] at hok
 
 theorem okCalls_checkCalls (P : Prog) : ∀ (calls : List CallStm) (Γ Γf : Env),
@@ -314,7 +546,8 @@ theorem runPipe_sound (P : Prog) (rc : Runner) (p : Pipeline) (ins : List (Bytes
     (hok : okPipe P p = true)
     (hin : ∀ x t, p.ins.lookup x = some t → ∃ v, ins.lookup x = some v ∧ valid t v = true)
     (hrc : ∀ c ∈ p.calls, RcOk rc c.callee) :
-    ∃ out, runPipe rc p ins = some out ∧ valid (.struct p.name p.outs) out = true := by
+    runPipe rc p ins = .nullDisabled ∨
+    ∃ out, runPipe rc p ins = .ok out ∧ valid (.struct p.name p.outs) out = true := by
   simp only [okPipe, Bool.and_eq_true] at hok
   obtain ⟨⟨⟨hvu, _⟩, hwf⟩, hrest⟩ := hok
   cases hoc : okCalls P { self := p.ins, calls := [] } p.calls with
@@ -329,7 +562,8 @@ theorem runPipe_sound (P : Prog) (rc : Runner) (p : Pipeline) (ins : List (Bytes
         ⟨hin, by intro id sig h; simp at h⟩
       have hs0 : SameCalls { self := p.ins, calls := [] } { self := ins, calls := [] } := by
         intro id _; rfl
-      obtain ⟨ρf, hrun, hρf⟩ := runCalls_sound P rc p.calls _ _ Γf hρ0 hs0 hoc hrc
+      rcases runCalls_sound P rc p.calls _ _ Γf hρ0 hs0 hoc hrc with hrn | ⟨ρf, hrun, hρf⟩
+      · exact Or.inl (by simp [runPipe, hrn])
       have hcc := okCalls_checkCalls P p.calls _ Γf hoc
       -- the return statement was accepted in Γf
       have hret : checkReturn Γf p.outs p.ret p.retWild = true := by
@@ -352,7 +586,7 @@ theorem runPipe_sound (P : Prog) (rc : Runner) (p : Pipeline) (ins : List (Bytes
         | plain e =>
           simp only [hl, Bool.and_eq_true] at hb
           exact ⟨hwf'.2 k t hkt, e, hbl, hb.1, hvb, hb.2⟩)
-      refine ⟨.obj vs, by simp [runPipe, hrun, hab, hvs], ?_⟩
+      refine Or.inr ⟨.obj vs, by simp [runPipe, hrun, hab, hvs], ?_⟩
       simp only [valid, check, beq_iff_eq, checkFields_ok_iff]
       intro k t hkt
       obtain ⟨v, hmem, hv⟩ := hvals k t hkt
@@ -386,7 +620,7 @@ theorem run_sound (P : Prog) (O : Oracle) (top : CallStm) (hO : OracleOk P top O
   | succ n ih =>
     intro c hfit hc ins hin
     by_cases hs : c.isStage = true
-    · exact ⟨O c.name ins, by simp [run, hs], hO c (hc.1 hs) hs ins⟩
+    · exact Or.inr ⟨O c.name ins, by simp [run, hs], hO c (hc.1 hs) hs ins⟩
     · have hns : c.isStage = false := by simpa using hs
       obtain ⟨q, hf, hq⟩ := hc.2 hns
       have hqm : q ∈ P.pipes := List.mem_of_find?_eq_some (by simpa [Prog.find] using hf)
@@ -409,18 +643,21 @@ theorem run_sound (P : Prog) (O : Oracle) (top : CallStm) (hO : OracleOk P top O
           exact Or.inr ⟨q, hqm, s, hsm, rfl⟩
         exact ih s.callee (hfits s hsm) (calleeOk_of_okStm P top Γ' s sh hmem hok)
       subst hq
-      obtain ⟨out, hout, hval⟩ := runPipe_sound P (run P O n) q ins hokq (by simpa [Pipeline.callee] using hin) hrc
       have hf' : P.find q.name = some q := by simpa [Pipeline.callee] using hf
-      exact ⟨out, by simp [run, Pipeline.callee, hf', hout], by simpa [Pipeline.callee] using hval⟩
+      rcases runPipe_sound P (run P O n) q ins hokq (by simpa [Pipeline.callee] using hin) hrc with hpn | ⟨out, hout, hval⟩
+      · exact Or.inl (by simp [run, Pipeline.callee, hf', hpn])
+      · exact Or.inr ⟨out, by simp [run, Pipeline.callee, hf', hout], by simpa [Pipeline.callee] using hval⟩
 
 /-- THE WHOLE PROGRAM -/
 theorem runProgram_sound (P : Prog) (O : Oracle) (top : CallStm) (n : Nat)
     (hO : OracleOk P top O) (hP : progOk P top = true) (hn : fits P n top.callee = true) :
-    ∃ sh out, checkStm emptyEnv top = some sh ∧
-      runProgram P O n top = some ({ self := [], calls := [(top.id, top.sig sh)] }, { self := [], calls := [(top.id, out)] }) ∧
-      valid (top.sig sh).whole out = true := by
+    ∃ sh, checkStm emptyEnv top = some sh ∧
+      (runProgram P O n top = .nullDisabled ∨
+       ∃ out, runProgram P O n top =
+          .ok ({ self := [], calls := [(top.id, top.sig sh)] }, { self := [], calls := [(top.id, out)] }) ∧
+        valid (top.sig sh).whole out = true) := by
   simp only [progOk, Bool.and_eq_true, List.all_eq_true] at hP
-  obtain ⟨⟨hpipes, _⟩, htop⟩ := hP
+  obtain ⟨⟨⟨hpipes, _⟩, htop⟩, _⟩ := hP
   cases hchk : checkStm emptyEnv top with
   | none => simp [hchk] at htop
   | some sh =>
@@ -430,12 +667,136 @@ theorem runProgram_sound (P : Prog) (O : Oracle) (top : CallStm) (n : Nat)
     have hrc := run_sound P O top hO hpipes n top.callee hn hcal
     have hρ : StoreOk emptyEnv { self := [], calls := [] } :=
       ⟨by intro id t h; simp [emptyEnv] at h, by intro id s h; simp [emptyEnv] at h⟩
-    obtain ⟨out, hstep, hρ', _⟩ := stepCall_sound P (run P O n) emptyEnv { self := [], calls := [] } top sh hρ
-      (by intro id _; rfl) (by simp [emptyEnv]) hchk htop hrc
-    refine ⟨sh, out, rfl, by simpa [runProgram, emptyEnv] using hstep, ?_⟩
+    refine ⟨sh, rfl, ?_⟩
+    rcases stepCall_sound P (run P O n) emptyEnv { self := [], calls := [] } top sh hρ
+      (by intro id _; rfl) (by simp [emptyEnv]) hchk htop hrc with hsn | ⟨out, hstep, hρ', _⟩
+    · exact Or.inl (by simpa [runProgram] using hsn)
+    refine Or.inr ⟨out, by simpa [runProgram, emptyEnv] using hstep, ?_⟩
     obtain ⟨v, hv, hval⟩ := hρ'.2 top.id (top.sig sh) (by simp [emptyEnv, List.lookup])
     simp [emptyEnv, List.lookup] at hv
     subst hv
     exact hval
 
+/-! ### programs without `disabled` modifiers never stop -/
+
+/-- the runner never stops at a null `disabled` value -/
+def RcND (rc : Runner) (c : Callee) : Prop := ∀ ins, rc c ins ≠ .nullDisabled
+
+theorem collect_ne_nullDisabled {α : Type} : ∀ (l : List (Res α)), (∀ r ∈ l, r ≠ .nullDisabled) →
+    Res.collect l ≠ .nullDisabled
+  | [], _ => by simp [Res.collect]
+  | r :: rs, h => by
+    have ih := collect_ne_nullDisabled rs (fun r' hr' => h r' (List.mem_cons_of_mem _ hr'))
+    have hr := h r List.mem_cons_self
+    cases r with
+    | nullDisabled => exact absurd rfl hr
+    | fail => simp [Res.collect]
+    | ok a =>
+      cases hc : Res.collect rs with
+      | nullDisabled => exact absurd hc ih
+      | fail => simp [Res.collect, hc]
+      | ok as => simp [Res.collect, hc]
+
+theorem map_ne_nullDisabled {α β : Type} (f : α → β) (r : Res α) (h : r ≠ .nullDisabled) :
+    r.map f ≠ .nullDisabled := by
+  cases r with
+  | nullDisabled => exact absurd rfl h
+  | fail => simp [Res.map]
+  | ok a => simp [Res.map]
+
+theorem callOut_nd (rc : Runner) (c : Callee) (keys : List Bytes) (args : List (Bytes × Bool × List J))
+    (sh : Option SplitShape) (h : RcND rc c) : callOut rc c keys args sh ≠ .nullDisabled := by
+  cases sh with
+  | none => exact h _
+  | some s =>
+    cases s with
+    | arr n =>
+      simp only [callOut]
+      apply map_ne_nullDisabled
+      apply collect_ne_nullDisabled
+      intro r hr
+      obtain ⟨i, _, rfl⟩ := List.mem_map.mp hr
+      exact h _
+    | map ks =>
+      simp only [callOut]
+      apply map_ne_nullDisabled
+      apply collect_ne_nullDisabled
+      intro r hr
+      obtain ⟨i, _, rfl⟩ := List.mem_map.mp hr
+      exact map_ne_nullDisabled _ _ (h _)
+
+theorem stepCall_nd (rc : Runner) (Γ : Env) (ρ : Store) (c : CallStm)
+    (hd : usingDisabled c.mods.usings = none) (h : RcND rc c.callee) :
+    stepCall rc Γ ρ c ≠ .nullDisabled := by
+  simp only [stepCall]
+  cases checkStm Γ c with
+  | none => simp
+  | some sh =>
+    cases allBinds Γ c.callee.params c.binds c.wild with
+    | none => simp
+    | some bs =>
+      simp only [disabledRT_none Γ ρ c.mods hd]
+      cases argLists Γ ρ bs c.callee.params with
+      | none => simp
+      | some args =>
+        have := callOut_nd rc c.callee (splitKeys Γ ρ c.callee.params bs) args sh h
+        cases hc : callOut rc c.callee (splitKeys Γ ρ c.callee.params bs) args sh with
+        | nullDisabled => exact absurd hc this
+        | fail => simp [hc]
+        | ok out => simp [hc]
+
+theorem runCalls_nd (rc : Runner) : ∀ (calls : List CallStm) (Γ : Env) (ρ : Store),
+    (∀ c ∈ calls, usingDisabled c.mods.usings = none ∧ RcND rc c.callee) →
+    runCalls rc Γ ρ calls ≠ .nullDisabled
+  | [], _, _, _ => by simp [runCalls]
+  | c :: r, Γ, ρ, h => by
+    have h1 := stepCall_nd rc Γ ρ c (h c List.mem_cons_self).1 (h c List.mem_cons_self).2
+    simp only [runCalls]
+    cases hs : stepCall rc Γ ρ c with
+    | nullDisabled => exact absurd hs h1
+    | fail => simp
+    | ok s => exact runCalls_nd rc r s.1 s.2 (fun c' hc' => h c' (List.mem_cons_of_mem _ hc'))
+
+theorem runPipe_nd (rc : Runner) (p : Pipeline) (ins : List (Bytes × J))
+    (h : ∀ c ∈ p.calls, usingDisabled c.mods.usings = none ∧ RcND rc c.callee) :
+    runPipe rc p ins ≠ .nullDisabled := by
+  have h1 := runCalls_nd rc p.calls { self := p.ins, calls := [] } { self := ins, calls := [] } h
+  simp only [runPipe]
+  cases hr : runCalls rc { self := p.ins, calls := [] } { self := ins, calls := [] } p.calls with
+  | nullDisabled => exact absurd hr h1
+  | fail => simp
+  | ok s =>
+    simp only
+    cases allBinds s.1 p.outs.toList p.ret p.retWild with
+    | none => simp
+    | some bs => cases hrv : retValueT s.1 s.2 bs p.outs <;> simp [hrv]
+
+theorem run_nd (P : Prog) (O : Oracle)
+    (hP : ∀ p ∈ P.pipes, ∀ c ∈ p.calls, usingDisabled c.mods.usings = none) :
+    ∀ (n : Nat) (c : Callee), RcND (run P O n) c := by
+  intro n
+  induction n with
+  | zero => intro c ins; simp [run]
+  | succ n ih =>
+    intro c ins
+    simp only [run]
+    by_cases hs : c.isStage = true
+    · simp [hs]
+    · simp only [hs, Bool.false_eq_true, if_false]
+      cases hf : P.find c.name with
+      | none => simp
+      | some q =>
+        have hqm : q ∈ P.pipes := List.mem_of_find?_eq_some (by simpa [Prog.find] using hf)
+        exact runPipe_nd (run P O n) q ins (fun s hsm => ⟨hP q hqm s hsm, ih s.callee⟩)
+
+theorem runProgram_nd (P : Prog) (O : Oracle) (top : CallStm) (n : Nat) (h : noDisabled P top = true) :
+    runProgram P O n top ≠ .nullDisabled := by
+  simp only [noDisabled, Bool.and_eq_true, List.all_eq_true, Option.isNone_iff_eq_none] at h
+  exact stepCall_nd _ _ _ top h.1 (run_nd P O h.2 n top.callee)
+
+/-
+The whole-program soundness theorem (Martian/TypingProgram.lean): induction over
+the calls of a pipeline body in dependency order and over the nesting depth of
+pipelines.  Core Lean only.
+-/
 end Martian.Typing
